@@ -52,6 +52,10 @@ def menu(entry):
     for p in entry.family.paths[:2]:
         m.append({'api': 'iter_errors', 'path': p, 'ns': True})
         m.append({'api': 'decode_lax', 'path': p, 'ns': True})
+    for p in getattr(entry.family, 'doc_ns_paths', ()):
+        # no namespace map: the prefixes and the default namespace of the path are those of each document
+        m.append({'api': 'iter_errors', 'path': p})
+        m.append({'api': 'decode_lax', 'path': p, 'lazy': 1})
     if hasattr(entry.family, 'peer_pages'):
         # location hints below the root are followed (the family's hints name schemas that cannot be built, or the
         # namespaces that would be loaded on demand anyway: nothing the schema would not load by itself)
